@@ -168,6 +168,20 @@ pub enum Src {
     IterUnknown,
     /// VecDeque<Item>.into_par()
     Deque,
+    /// &Vec<Item>.par().cloned(): owned clones of borrowed items
+    Cloned,
+    /// LinkedList<Item>.into_par()
+    List,
+    /// BTreeSet<Item>.into_par() (values are generated sorted so that set order = position order)
+    BTree,
+    /// &VecDeque<Item>.par(): items are &Item
+    DequeRef,
+    /// &[Item; 8].par(): items are &Item
+    Array,
+    /// Vec<Item>.into_con_iter().into_par()
+    ConIterVec,
+    /// (&[Item]).into_par(): items are &Item
+    SliceInto,
 }
 
 impl Src {
@@ -179,6 +193,13 @@ impl Src {
             Src::IterExact => 'E',
             Src::IterUnknown => 'U',
             Src::Deque => 'D',
+            Src::Cloned => 'C',
+            Src::List => 'L',
+            Src::BTree => 'B',
+            Src::DequeRef => 'd',
+            Src::Array => 'A',
+            Src::ConIterVec => 'I',
+            Src::SliceInto => 'W',
         }
     }
     pub fn from_letter(c: char) -> Src {
@@ -189,6 +210,13 @@ impl Src {
             'E' => Src::IterExact,
             'U' => Src::IterUnknown,
             'D' => Src::Deque,
+            'C' => Src::Cloned,
+            'L' => Src::List,
+            'B' => Src::BTree,
+            'd' => Src::DequeRef,
+            'A' => Src::Array,
+            'I' => Src::ConIterVec,
+            'W' => Src::SliceInto,
             _ => panic!("bad src letter"),
         }
     }
@@ -199,7 +227,11 @@ impl Src {
         !matches!(self, Src::IterUnknown)
     }
     pub fn owning(self) -> bool {
-        !matches!(self, Src::Slice | Src::Range)
+        !matches!(self, Src::Slice | Src::Range | Src::Cloned | Src::DequeRef | Src::Array | Src::SliceInto)
+    }
+    /// the monitor context owns the source items (sources that lend references)
+    pub fn borrows_ctx_items(self) -> bool {
+        matches!(self, Src::Slice | Src::Cloned | Src::DequeRef | Src::Array | Src::SliceInto)
     }
 }
 
@@ -435,6 +467,10 @@ pub struct Case {
 
 impl Case {
     pub fn val_at(&self, pos: u64) -> u32 {
+        if self.src == Src::BTree {
+            // non-decreasing with duplicates: the set's order (val, id) is then the position order
+            return (pos / 3) as u32;
+        }
         (mix64(pos ^ self.val_seed.rotate_left(13)) % 16) as u32
     }
     pub fn depth(&self) -> usize {
